@@ -70,9 +70,45 @@ def join(states: list[Optional[State]]) -> Optional[State]:
     must = live[0].must
     may = live[0].may
     for s in live[1:]:
-        must = must & s.must
+        common = must & s.must
+        disj = _disjunction(must - common, s.must - common)
+        must = common | disj if disj else common
         may = may | s.may
     return State(must, may)
+
+
+def _plain(fact) -> bool:
+    txt = fact[1]
+    return not txt.startswith(("EV:", "MATCH:", "ITER:")) and " or " not in txt and len(txt) < 80
+
+
+_DISJ_CACHE: dict = {}
+
+
+def _disjunction(a: frozenset, b: frozenset) -> frozenset:
+    """What survives a join beyond the common facts: `(facts only on one side) or (facts only on the other)`, kept as one
+    composite fact so that guards split over nested ifs / early returns stay decidable (sa/logic.py evaluates it)."""
+    if not a or not b:
+        return frozenset()
+    key = (a, b)
+    hit = _DISJ_CACHE.get(key)
+    if hit is not None:
+        return hit
+    pa = sorted(f for f in a if _plain(f))
+    pb = sorted(f for f in b if _plain(f))
+    out = frozenset()
+    if pa and pb and len(pa) <= 3 and len(pb) <= 3:
+        def conj(fs):
+            return " and ".join(("(" + t + ")") if pol else ("(not (" + t + "))") for pol, t in fs)
+
+        sides = sorted(["(" + conj(pa) + ")", "(" + conj(pb) + ")"])
+        try:
+            txt = unparse(ast.parse(" or ".join(sides), mode="eval").body)
+            out = frozenset({(True, txt)})
+        except SyntaxError:
+            out = frozenset()
+    _DISJ_CACHE[key] = out
+    return out
 
 
 @dataclass
